@@ -424,3 +424,33 @@ SPECS['C13'] = dict(queries=c13, assumptions=COMMON_ASSUMPTIONS + [
     "sequential query: 3 (5) symbolic operations out of {take+touch+release a handle, push_back, erase first, two nested handles}, then the list is destroyed and both tables must be empty",
     "std::allocator variant: same element type, default allocator (operator delete(nullptr) is legal there; destroying a never-constructed E is not)"],
     outside=["more than 5 operations / 2 threads", "allocators with fancy pointers or state", "exceptions thrown by element constructors"])
+
+
+# ------------------------------------------------------------------------------------------------ C14 (lr and rcu parts; cow part is added with C04)
+def c14(tier):
+    qs = []
+    W, R1, R2 = ('W', 'vp_writer'), ('R1', 'vp_reader'), ('R2', 'vp_reader')
+    d = ['ERASE_POS=-1', 'PUSH_BACK']
+    lr_ro = dict(final='vp_final', cover=3, timeout=1200)
+    if tier == 'quick':
+        # reader runs alone after an arbitrary prefix that suspends the writer at an arbitrary visible step
+        qs.append(mk('lr_reader_solo_after_R2', 'c03_lr.cpp', [W, R1, R2], 2, solo=[['R1']], defines=['NWRITES=2', 'NREADS=1'], **lr_ro))
+        # converse: prefix, readers run to completion, then the writer alone completes
+        qs.append(mk('lr_writer_solo_after_readers_R2', 'c03_lr.cpp', [W, R1, R2], 2, solo=[['R1', 'R2', 'W']], defines=['NWRITES=2', 'NREADS=1'], **lr_ro))
+        qs.append(rq('rcu_reader_solo_after_writer_R2', 'AB', 2, order=(1, 0), defines=d, solo=[['A']]))
+        qs.append(rq('rcu_writer_solo_after_reader_R2', 'AB', 2, order=(0, 1), defines=d, solo=[['A', 'B']]))
+    else:
+        for o in orders(3, 'all'):
+            s_ = ''.join(map(str, o))
+            qs.append(mk('lr_reader_solo_after_R3_o' + s_, 'c03_lr.cpp', [W, R1, R2], 3, order=o, solo=[['R1']], defines=['NWRITES=2', 'NREADS=1'], final='vp_final', cover=3, timeout=3000))
+            qs.append(rq('rcu_reader_solo_after_R2_o' + s_, 'ABC', 2, order=o, defines=d, solo=[['A']], timeout=3000))
+        qs.append(mk('lr_writer_solo_after_readers_R3', 'c03_lr.cpp', [W, R1, R2], 3, solo=[['R1', 'R2', 'W']], defines=['NWRITES=2', 'NREADS=2'], final='vp_final', cover=3, timeout=3000))
+        qs.append(rq('rcu_writer_solo_after_readers_R2', 'ABC', 2, order=(0, 2, 1), defines=d, solo=[['A', 'C', 'B']], timeout=3000))
+    return qs
+
+
+SPECS['C14'] = dict(queries=c14, assumptions=SPECS['C03']['assumptions'][:-1] + [
+    "query shape: R rounds of arbitrary interleaving (this suspends every writer at an arbitrary visible step), then the thread under test is the only one scheduled, with "
+    "an unlimited budget: it must run to completion; a blocking primitive whose condition is false, or a fair-spin yield that nobody can release, ends the run unfinished",
+    "converse queries: after the prefix all readers run to completion and then the writer alone must complete (no deadlock / livelock between readers and writers)"],
+    outside=["the cow_guarded clause is decided by the C04 harness queries listed there", "more than 3 threads; prefixes longer than R rounds"])
